@@ -311,12 +311,12 @@ def check_C15(tier, replay=None):
 
 # ------------------------------------------------------------------------- C02
 
-MEMBER_DEVS = ("D08", "D09", "D10", "D11", "D12", "D13", "D14", "D23a", "D23c")
+MEMBER_DEVS = ("D08", "D09", "D10", "D11", "D12", "D13", "D14", "D23a", "D23c", "D30")
 
 
 def check_C02(tier, replay=None):
     R = Result("C02", tier)
-    slices = ("builtins", "positions", "nested", "attrs", "pairs", "recursive") + (("positions_all", "triples") if tier == "thorough" else ())
+    slices = ("builtins", "positions", "nested", "attrs", "pairs", "recursive", "toplevel") + (("positions_all", "triples") if tier == "thorough" else ())
     runs = [("MC_C02_" + s, {"Slice": '"%s"' % s}) for s in slices]
     std_flow(R, "MC_C02", runs, "Trace_Out", {"P": '"C02"'}, MEMBER_DEVS, ["Agreement", "Emit"])
     # second observation (the property's observe_at): typed struct literals synthesised from Schema!ExpFields must
@@ -339,13 +339,13 @@ def check_C02(tier, replay=None):
 def check_C08(tier, replay=None):
     R = Result("C08", tier)
     if tier == "quick":
-        runs = [("MC_C08_d2", {"MaxDepth": "2", "Kinds": "<- AllKinds"})]
+        runs = [("MC_C08_d2", {"MaxDepth": "2", "Kinds": "<- AllKinds"}), ("MC_C08_d1x", {"MaxDepth": "1", "Kinds": "<- AllKindsX"})]
     else:
-        runs = [("MC_C08_d3", {"MaxDepth": "3", "Kinds": "<- AllKinds"})]
+        runs = [("MC_C08_d3", {"MaxDepth": "3", "Kinds": "<- AllKinds"}), ("MC_C08_d2x", {"MaxDepth": "2", "Kinds": "<- AllKindsX"})]
     std_flow(R, "MC_C08", runs, "Trace_Out", {"P": '"C08"'}, MEMBER_DEVS, ["Agreement", "BasePrefix", "Emit"])
     R.extra["exhaustive"] = True
     return finish(R, "model_checking",
-                  "every extension chain of the bounded space (depth 1..2 quick / 1..3 thorough; own content of every level in {empty, sequence, choice, attributes, sequence+attributes}; base-first / derived-first; root base in the same file or in an imported file of another namespace; a global element with the root base's name before / after it / absent) is one TLC state; each is generated by the real code and every derived struct is judged by TLC (base members first in order, own after, member namespaces, nothing lost or added)",
+                  "every extension chain of the bounded space (depth 1..2 quick / 1..3 thorough; own content of every level in {empty, sequence, choice inside a sequence, attributes, sequence+attributes, and - at depth 1 quick / 2 thorough - a repeating choice as the whole content}; a tree (the root base refers to a global element that extends it); base-first / derived-first; root base in the same file or in an imported file of another namespace; a global element with the root base's name before / after it / absent) is one TLC state; each is generated by the real code and every derived struct is judged by TLC (base members first in order, own after, member namespaces, nothing lost or added)",
                   ["concretiser, syn-based abstraction", "TLC", "vocabulary tables of MC_C08"])
 
 
